@@ -653,10 +653,15 @@ type ptDialog struct {
 // scenarioPinTime: dialogTimeout 2 s on the real binary; lifetimes 2-4 s.
 func scenarioPinTime() int {
 	run := ev.New("C15", "exploration",
-		"timed histories on the real binary (dialogTimeout 2 s; Expires of the establishing answer absent / smaller / larger): every dialog is probed with 3 back-to-back in-dialog requests over >= 3 backends - one socket means pinned, three distinct sockets mean forgotten; "+
+		"timed histories on the real binary (dialogTimeout 2 s in the YAML of every service, DEFAULT_DIALOG_TIMEOUT=1 in the environment; Expires of the establishing answer absent / smaller / larger): every dialog is probed with 3 back-to-back in-dialog requests over >= 3 backends - one socket means pinned, three distinct sockets mean forgotten; "+
 			"probes no later than 60% and no earlier than 100%+margin of the lifetime, BYE answered with any final status, NOTIFY active / terminated / terminated;reason (don't-care), unrelated requests carrying Expires up to 2^31-1 in between; verdicts only where the measured brackets prove inside/outside; distinct = (plan, phase) cells")
 	const timeout = 2 * time.Second
-	w0, err := wire.NewWorld(*flagBin, *flagDir, wire.Opts{Services: 8, Backends: 3, TCPBackend: true, DialogTimeout: 2})
+	// the environment carries another default (1 s): it is only the fall-back for services whose
+	// configuration names no dialogTimeout, and every service here names 2 s
+	w0, err := wire.NewWorld(*flagBin, *flagDir, wire.Opts{Services: 8, Backends: 3, TCPBackend: true, DialogTimeout: 2, PreStart: func(w *wire.World) error {
+		w.ExtraEnv = append(w.ExtraEnv, "DEFAULT_DIALOG_TIMEOUT=1")
+		return nil
+	}})
 	if err != nil {
 		fmt.Println("HARNESS-ERROR world:", err)
 		return 2
